@@ -53,3 +53,8 @@ pub mod c12 {
     use super::*;
     include!("c12.rs");
 }
+pub mod c14 {
+    #[allow(unused_imports)]
+    use super::*;
+    include!("c14.rs");
+}
